@@ -32,7 +32,7 @@ def instances(tier):
         out.append((T, 'VH_C03_MsgAddress', [k, L, d], {'weight': 20 + L // 8}))
     for (k, i, b, vb) in [(0, 1, 1, 8), (1, 2, 0, 0), (2, 0, 1, 0)]:
         out.append((T, 'VH_C16_Message', [k, i, b, vb], {'weight': 30}))
-    for h in ('VH_C03_TickTock', 'VH_C03_ShardIdent', 'VH_C03_combinators', 'VH_C03_Grams', 'VH_C03_SignedCoins'):
+    for h in ('VH_C03_TickTock', 'VH_C03_ShardIdent', 'VH_C03_combinators', 'VH_C03_Grams', 'VH_C03_SignedCoins', 'VH_C03_plain_kinds'):
         out.append((T, h, [], {'weight': 60}))
     return out
 
